@@ -341,7 +341,7 @@ type Silences struct {
 
 	mtx       sync.RWMutex
 	st        state
-	version   int // Increments whenever silences are added.
+	version   int // Increments whenever silences are added or replaced by a merge.
 	broadcast func([]byte)
 	mi        matcherIndex
 	vi        versionIndex
@@ -805,6 +805,21 @@ func (s *Silences) indexSilence(sil *pb.Silence) {
 	if err != nil {
 		s.metrics.matcherCompileIndexSilenceErrorsTotal.Inc()
 		s.logger.Error("Failed to compile silence matchers", "silence_id", sil.Id, "err", err)
+	}
+}
+
+// reindexSilence moves a silence that is already indexed to the end of the
+// version index under a new version. It is called when a merge replaces the
+// stored version of a silence, so that clients of QSince that have already
+// seen (and possibly dropped) the previous version get to see the new one.
+func (s *Silences) reindexSilence(id string) {
+	s.version++
+	for i := range s.vi {
+		if s.vi[i].id == id {
+			s.vi = append(s.vi[:i], s.vi[i+1:]...)
+			s.vi.add(s.version, id)
+			return
+		}
 	}
 }
 
@@ -1320,6 +1335,10 @@ func (s *Silences) Merge(b []byte) error {
 		if merged {
 			if added {
 				s.indexSilence(e.Silence)
+			} else {
+				// A newer version of a known silence, possibly one that had
+				// already expired here: make it visible to QSince.
+				s.reindexSilence(e.Silence.Id)
 			}
 			if !cluster.OversizedMessage(b) {
 				// If this is the first we've seen the message and it's
